@@ -78,7 +78,15 @@ func runSolver(ctx context.Context, sp solverSpec, file string, secs int, wantMo
 	_ = cmd.Run()
 	dur = time.Since(start).Seconds()
 	out = buf.String()
-	first := strings.TrimSpace(strings.SplitN(out, "\n", 2)[0])
+	first := ""
+	for _, l := range strings.Split(out, "\n") {
+		l = strings.TrimSpace(l)
+		if l == "" || strings.HasPrefix(l, "WARNING") {
+			continue // solver warnings (e.g. about a pattern) precede the answer
+		}
+		first = l
+		break
+	}
 	switch first {
 	case "unsat", "sat", "unknown":
 		status = first
